@@ -941,3 +941,50 @@ def instances(tier):
     out = _c04_instances_7(tier)
     out.append(Inst(iocb_sync_abort, {}, budget=120 if tier == "quick" else 600))
     return out
+
+
+# ------------------------------------------------------------------ an I-Am from the peer while a request to it is outstanding
+@meta(bounds="one client whose application records I-Am announcements and one server; the client knows the server from its I-Am; "
+             "the first copy of a request is lost (the answer comes with the retry at 3 s) or the server never answers (symbolic); "
+             "one second after the request the server announces itself again: exactly one outcome - the acknowledgement or, "
+             "from a silent server, the abort after the retries - and nothing left",
+      outside="announcements with other capabilities (C12)",
+      stubs=["virtual clock (task._time)", "asyncore.loop -> clock advance", "task._Trigger -> wake flag", "fresh singletons per path"])
+def iam_while_waiting(d):
+    from .C12 import LearningStack
+    w = World()
+    silent = d.bool('server_never_answers')
+    lan = nl.FaultLAN([] if silent else [nl.Fault(1, nl.DROP, 1)], world=w)     # frame 0 is the I-Am, frame 1 the request
+    cdev = nl.make_device("c", 10, numberOfApduRetries=1, apduTimeout=APDU_TIMEOUT)
+    client = LearningStack(cdev, lan)
+    server = LearningStack(nl.make_device("s", 20), lan, app_timeout=APP_TIMEOUT)
+    server.pt_mode = "silent" if silent else "ack"
+    server.pt_result = b"\x07"
+    server.i_am(address=client.address)
+    w.run()
+    if client.deviceInfoCache.get_device_info(server.address) is None:
+        raise Violation("i-am-not-learned")
+    client.request(nl.private_transfer(server.address, b"\x01"))
+    w.run(until=w.clock + 1.0)
+    server.i_am(address=client.address)
+    w.run()
+    kinds = [nl.outcome_kind(c) for c in client.confirmations]
+    if kinds != (["abort"] if silent else ["ack"]):
+        raise Violation("outcome-count", n=len(kinds), kinds=kinds, silent=bool(silent), errors=[e[1] for e in d.errors_logged()])
+    if nl.residue(client) or nl.residue(server) or not w.idle():
+        raise Violation("residue", client=nl.residue(client), server=nl.residue(server))
+    d.reach()
+
+
+_c04_instances_8 = instances
+
+
+def instances(tier):
+    out = _c04_instances_8(tier)
+    out.append(Inst(iam_while_waiting, {}, budget=120 if tier == "quick" else 300))
+    # a response of five segments, window 2, every single fault (a lost, duplicated or overtaken segment INSIDE a window)
+    both = SEG.index("segmentedBoth")
+    p = dict(S=50, wc=2, ws=2, retries=1, horizon=14, mode="ack", iocb=False, segc=both, segs=both, req=(2, 2), resp=(200, 200),
+             nf=1, kinds=[nl.DROP, nl.DUP, nl.HOLD])
+    out.append(Inst(txn, p, budget=150 if tier == "quick" else 600, path_timeout=60, label=label(p)))
+    return out
